@@ -320,7 +320,7 @@ impl ReservedHeapSection {
 
         loop {
             // Eat the first null chars
-            while let Some('\u{0}') = src.chars().next() {
+            while src.as_bytes().first() == Some(&0u8) {
                 match ret {
                     Some(_) => {
                         debug_assert_ne!(anchor, self.cell_len());
